@@ -129,11 +129,13 @@ def graphs(draw):
         chosen = [pairs[0]]
     chosen = chosen[:20]
     pal = draw(st.sampled_from([1, 3, 20]))
+    half = draw(st.integers(0, 3)) == 0   # weights k + 0.5: exact in binary, printed exactly with 6 significant digits
     edges = []
     for (u, v) in chosen:
         if draw(st.booleans()):
             u, v = v, u
-        edges.append((u, v, draw(st.integers(1, pal))))
+        w = draw(st.integers(1, pal))
+        edges.append((u, v, w + 0.5 if half else w))
     return n, edges
 
 
@@ -172,9 +174,20 @@ def spoils(draw, n, edges):
     return kinds, extra, pos
 
 
-def dimacs_text(n, lines, trailing_newline=True):
-    t = "p edge %d %d\n" % (n, len(lines))
-    t += "\n".join("e %d %d %s" % (u + 1, v + 1, w) for u, v, w in lines)
+def dimacs_text(n, lines, trailing_newline=True, style=0):
+    """style bits: 1 = 'a' tags on every other edge line, 2 = comment lines ('c' before the problem line, '#' between edges),
+    4 = tab separators"""
+    sep = "\t" if style & 4 else " "
+    out = []
+    if style & 2:
+        out.append("c generated file")
+    out.append("p edge %d %d" % (n, len(lines)))
+    for i, (u, v, w) in enumerate(lines):
+        tag = "a" if (style & 1) and i % 2 == 1 else "e"
+        out.append(sep.join([tag, str(u + 1), str(v + 1), str(w)]))
+        if (style & 2) and i == len(lines) // 2:
+            out.append("# halfway")
+    t = "\n".join(out)
     if trailing_newline:
         t += "\n"
     return t
@@ -347,6 +360,7 @@ def make_c11(env, stats):
         spoiled = draw(st.booleans())
         nl = draw(st.sampled_from([True, True, False]))
         ex = dict(n=n, edges=edges, nl=nl, spoiled=spoiled)   # 'spoiled' only selects which of the two files goes through MPI
+        ex["style"] = draw(st.integers(0, 7))
         ex["spoil"] = draw(spoils(n, edges))
         ex["exact"] = draw(st.lists(exact_opts(), min_size=2, max_size=3))
         ex["approx"] = draw(exact_opts())
@@ -362,7 +376,7 @@ def make_c11(env, stats):
         lines = [(u, v, str(w)) for u, v, w in edges]
         stats["evaluations"] += 1
         # --- plan every launch of this example (valid file, then the same file spoiled), run them concurrently, judge in order
-        text = dimacs_text(n, lines, ex["nl"])
+        text = dimacs_text(n, lines, ex["nl"], ex["style"])
         dim, opt = mcb_weight(n, edges)
         stats["classes"]["valid"] = stats["classes"].get("valid", 0) + 1
         if dim >= 2:
@@ -370,7 +384,7 @@ def make_c11(env, stats):
             stats["classes"]["valid-dimension>=2"] = stats["classes"].get("valid-dimension>=2", 0) + 1
         kinds, extra, pos = ex["spoil"]
         slines = lines[:pos] + extra + lines[pos:]
-        stext = dimacs_text(n, slines, ex["nl"])
+        stext = dimacs_text(n, slines, ex["nl"], ex["style"])
         stats["classes"]["spoiled-" + "+".join(sorted(kinds))] = stats["classes"].get("spoiled-" + "+".join(sorted(kinds)), 0) + 1
         mpi_opts = (ALGOS[ex["mpi"][1]] + (["--printcycles=true"] if ex["mpi_print"] else [])) if ex["mpi"] else []
         plans = []   # (judge, demo, text, opts, procs, extra)
@@ -405,7 +419,7 @@ def make_c11(env, stats):
                             case_of("mcb-dimacs", text, ex["exact"][0][0], 0))
         lines = slines
         if len(stats["samples"]) < 5 and stats["evaluations"] % 7 == 3:
-            stats["samples"].append(dict(file=dimacs_text(n, lines, ex["nl"]), spoiled=ex["spoiled"], options=[o for o, _, _ in ex["exact"]], mpi=ex["mpi"]))
+            stats["samples"].append(dict(file=dimacs_text(n, lines, ex["nl"], ex["style"]), spoiled=ex["spoiled"], options=[o for o, _, _ in ex["exact"]], mpi=ex["mpi"]))
     return example, prop
 
 
